@@ -189,7 +189,10 @@ func ParseExpr(src string) (e Expr, err error) {
 func (p *exprParser) expr(min int) Expr {
 	// quantifiers bind loosest
 	if t := p.peek(); t.kind == "id" && (t.s == "forall" || t.s == "exists") {
-		return p.quant()
+		// (a Go variable may be called `exists`: a quantifier is the keyword followed by its bound variable)
+		if p.p+1 < len(p.toks) && p.toks[p.p+1].kind == "id" {
+			return p.quant()
+		}
 	}
 	x := p.unary()
 	for {
